@@ -1715,10 +1715,28 @@ def _owner_class(fi):
     return None
 
 
-def make_stmt_resolver(ctx):
+def make_stmt_resolver(ctx, root=None):
     """(call, FuncInfo of the scope it is in) -> (FunctionDef, FuncInfo) for helpers ADDED SINCE THE REVIEW (absent from
-    the transcription of their module, spec/mod): those are expanded in place; reviewed functions stay calls"""
+    the transcription of their module, spec/mod): those are expanded in place; reviewed functions stay calls -- unless the
+    reviewed transcription of the function being looked at (`root`) never called them: then the code now delegates to an
+    existing function what it used to do itself, and is read with that function spliced in as well"""
     from . import modref
+    ref_calls = None
+    if root is not None:
+        try:
+            tree = modref._tree(root.module.name)
+            rn = modref.ref_name(root)
+            node = next((n for n in tree.body if isinstance(n, ast.FunctionDef) and n.name == rn), None) if tree is not None else None
+            if node is not None:
+                ref_calls = set()
+                for c in ast.walk(node):
+                    if isinstance(c, ast.Call):
+                        if isinstance(c.func, ast.Name):
+                            ref_calls.add(c.func.id)
+                        elif isinstance(c.func, ast.Attribute):
+                            ref_calls.add(c.func.attr)
+        except Exception:
+            ref_calls = None
 
     def resolve(call, fi):
         if fi is None:
@@ -1749,7 +1767,9 @@ def make_stmt_resolver(ctx):
         if callee is None or not isinstance(getattr(callee, "node", None), ast.FunctionDef) or callee.node is fi.node:
             return None
         if modref.is_reviewed(callee):
-            return None
+            called_as = f.id if isinstance(f, ast.Name) else f.attr
+            if ref_calls is None or called_as in ref_calls or callee.node.name in ref_calls:
+                return None
         return callee.node, callee
     return resolve
 
@@ -1759,7 +1779,7 @@ def expanded(ctx, fi):
     cache = ctx.cache.setdefault("expanded", {})
     if fi.qualname not in cache:
         try:
-            cache[fi.qualname] = _expand.expand_function(fi.node, make_stmt_resolver(ctx), fi)
+            cache[fi.qualname] = _expand.expand_function(fi.node, make_stmt_resolver(ctx, getattr(fi, "original", fi)), fi)
         except RecursionError:
             cache[fi.qualname] = (fi.node, [])
     return cache[fi.qualname][0]
@@ -2982,7 +3002,7 @@ def _condition_mutation(f_code, f_ref, all_code=None, all_ref=None, extra=()):
         # have: the new tests select a new outcome (a fast path, a cache hit, a new refusal kind).  A defensive check
         # that can never fire routes to an outcome that was already there, and is no verdict (below).
         return True
-    if POLICY not in ("strict", "cautious") and not only_a and only_b:
+    if POLICY not in ("strict", "cautious") and not only_a and only_b and not any(k2[0] == "effect" and k2[1].startswith("call ") for k2 in extra):
         # tests dropped: a case is no longer checked -- provided the function as a whole lost them (they did not move to
         # another component) and gained none (it does not test the same thing another way).  Tests ADDED are no verdict:
         # a defensive check that can never fire reads exactly like a new refusal.
